@@ -6,7 +6,7 @@ from harness import rfworld as W
 
 META = dict(
     level='model_checking',
-    level_text='bounded histories of the real HostConnection / HostConnectionPool code driven by real ResponseFutures: every interleaving of send / respond / client timeout / late response / defunct / replacement task / shutdown (and shutdown during a blocking connect) is a forked symbolic choice, each path decided by z3; accounting steps of both pool classes from symbolic counter states',
+    level_text='bounded histories of the real HostConnection / HostConnectionPool code driven by real ResponseFutures: every interleaving of send / respond / client timeout / late response / defunct / replacement task / shutdown (and shutdown during a blocking connect, and shutdown at any lock acquire/release inside _replace) is a forked symbolic choice, each path decided by z3; accounting steps of both pool classes from symbolic counter states',
     level_note='task-level schedules plus pre-emption at the blocking connection_factory call; transport, timers, executor are harness fakes; request capacity is made small (2-3 streams) so that capacity limits are reached within the bound',
     technique='symbolic execution (sx proxies, LIA) of the real pool code over solver-enumerated event interleavings + z3 validity per path; inductive accounting steps from symbolic counter states',
     bounds=dict(quick='<= 3 requests, histories of <= 7 events + drain, stream capacity 2..3, orphan threshold 1..2; borrow/return steps with in_flight, max_request_id in [0, 32767] symbolic',
@@ -24,8 +24,8 @@ def encoded_functions():
             HostConnectionPool.borrow_connection, HostConnectionPool.return_connection, HostConnectionPool.shutdown]
 
 
-def h_history(V, steps=5, preempt=False):
-    return poolhist.run_history(V, 'C12', steps=steps, factory_preempt=preempt)
+def h_history(V, steps=5, preempt=False, race=None):
+    return poolhist.run_history(V, 'C12', steps=steps, factory_preempt=preempt, race=race)
 
 
 def h_borrow_step(V):
@@ -135,4 +135,7 @@ def jobs(tier):
                           dict(o, pin={'max_in_flight': cap, 'orphan_threshold': thr})))
             js.append(Job('preempt-c%d-t%d' % (cap, thr), 'h_history', dict(steps=steps - 1, preempt=True),
                           dict(o, pin={'max_in_flight': cap, 'orphan_threshold': thr})))
+    # one pre-emption by a thread calling shutdown() at a lock acquire/release inside HostConnection._replace
+    js.append(Job('replace-shutdown-race', 'h_history', dict(steps=steps - 1, race='replace-shutdown'),
+                  dict(o, pin={'max_in_flight': 0, 'orphan_threshold': 0})))
     return js
